@@ -10,6 +10,8 @@ for m in sorted(glob.glob(os.path.join(root, 'seeded', '*', 'meta.json'))):
     first = next((l.strip('# *-').strip() for l in desc if l.strip()), '')
     caught = [r.split(':')[0] for r in d.get('check_results', []) if r.endswith(':caught')]
     other = [r for r in d.get('check_results', []) if not r.endswith(':caught')]
+    if d.get('outside_claim'):
+        other.append('outside every property (see meta.json: outside_claim)')
     rows.append((name, d['property'], 'yes' if d.get('confirmed_by_me') else 'NO', ', '.join(caught) or '-', ', '.join(other) or '-', first[:110]))
 with open(os.path.join(root, 'seeded', 'README.md'), 'w') as f:
     f.write('# Seeded changes\n\nEach directory holds one change produced by an independent sub-agent that saw only the text of one property: `patch.diff`, the demonstration (`demo_test.go.txt`, with `// place at:` and `// run:` lines), `description.md` and `meta.json` (property, what it needs to manifest, what was run to confirm it, and which checks report a VIOLATION on it). Confirmation and check runs are done by `tools/seedcheck.sh <PROP> <mN> [other props]`.\n\n')
